@@ -203,6 +203,19 @@ def step (st : St) (j : Json) : St × List String :=
   | "mgr" =>
     -- the node's own publishing path: Manager.Update on the store of this moment, key store = the listed key ids
     let hdr := s!"mgr {jInt j "h"}.{jNat j "i"}.{jNat j "j"}"
+    -- round 3: `own` = the transaction CreateTransaction answered; Manager.Update then writes it to the store itself
+    let ownAdd := fun (st : St) (c : C09.Cfg) (p : Published) (line : String) =>
+      if (jObj j "own").isNull then (st, [line])
+      else
+        let (tx, _) := parseTx (jObj j "own")
+        match managerOwnAdd c st.store tx p with
+        | .ok s' =>
+          let st' := { st with store := s' }
+          let o := observe st'
+          let shown := if o == st.lastObs then "=" else o
+          ({ st' with lastObs := o }, [line ++ " own-add=ok OBS " ++ shown])
+        | .err e => (st, [line ++ " own-add=err:" ++ e])
+        | .panic x => (st, [line ++ " own-add=panic:" ++ x])
     let via := jStr j "via"
     let has := jStrs j "has"
     let hasF := fun (k : String) => has.contains k
@@ -220,7 +233,7 @@ def step (st : St) (j : Json) : St × List String :=
       | some next =>
         let c := cfgFor none ""
         match managerUpdate c st.store hasF (jBool j "svcOk") (jStr j "id") next with
-        | .ok p => (st, [s!"{hdr} ok kid={p.kid} prevs=[{String.intercalate "," (p.prevs.map shortRef)}]"])
+        | .ok p => ownAdd st c p s!"{hdr} ok kid={p.kid} prevs=[{String.intercalate "," (p.prevs.map shortRef)}]"
         | .err e => (st, [s!"{hdr} err:{e}"])
         | .panic x => (st, [s!"{hdr} panic:{x}"])
     else if via == "rmvm" then
@@ -230,7 +243,7 @@ def step (st : St) (j : Json) : St × List String :=
       match managerRemoveVM c st.store hasF (jBool j "svcOk") (jStr j "id") cur (jStr j "rm") with
       | .ok (some p) =>
         let shape := s!"doc=vm[{String.intercalate "," (p.doc.vms.map (·.id))}]ci[{String.intercalate "," (p.doc.capInv.map (·.id))}]"
-        (st, [s!"{hdr} ok kid={p.kid} prevs=[{String.intercalate "," (p.prevs.map shortRef)}] {shape}"])
+        ownAdd st c p s!"{hdr} ok kid={p.kid} prevs=[{String.intercalate "," (p.prevs.map shortRef)}] {shape}"
       | .ok none => (st, [s!"{hdr} ok nothing"])
       | .err e => (st, [s!"{hdr} err:{e}"])
       | .panic x => (st, [s!"{hdr} panic:{x}"])
@@ -253,7 +266,10 @@ def step (st : St) (j : Json) : St × List String :=
         else if via == "updated" then .updated else .other
       match t, nextO with
       | .deactivated, none => (st, [s!"{hdr} err:mgr:bad-op"])
-      | .deactivated, some d => (st, [showT (managerCommit c st.store hasF (jBool j "svcOk") .deactivated (jStr j "id") none d)])
+      | .deactivated, some d =>
+        match managerCommit c st.store hasF (jBool j "svcOk") .deactivated (jStr j "id") none d with
+        | .ok (.update p) => ownAdd st c p (showT (.ok (.update p)))
+        | r => (st, [showT r])
       | t, n => (st, [showT (managerCommit c st.store hasF (jBool j "svcOk") t (jStr j "id") n { id := "", idID := "" })])
   | "reprocess" =>
     -- REPROCESS of application/did+json: the listed transactions go through `callback` again, in order
